@@ -774,7 +774,7 @@ def control_flow(fn):
             b = _orient(f)
             _flatten_else(f)
             c = _orient_exits(f)
-            d = _hoist_common(f)
+            d = _hoist_common(f) | _merge_tail_returns(f)
             if not (a or b or c or d):
                 break
         _guard_to_nested(f)
@@ -935,6 +935,26 @@ def _fix_empty(body, i):
     elif not st.body:
         st.test = negate(st.test)
         st.body, st.orelse = st.orelse, []
+
+
+def _merge_tail_returns(scope):
+    """`if c: A; return e` followed by `B; return e` (the same expression, evaluated last in both)  ->
+    `if c: A else: B` followed by `return e`."""
+    changed = False
+    for owner, fld in _scope_blocks(scope):
+        body = getattr(owner, fld)
+        for i, st in enumerate(body):
+            rest = body[i + 1:]
+            if isinstance(st, ast.If) and not st.orelse and len(st.body) > 1 and isinstance(st.body[-1], ast.Return) and rest \
+                    and isinstance(rest[-1], ast.Return) and len(rest) > 1 \
+                    and ast.dump(st.body[-1]) == ast.dump(rest[-1]) \
+                    and not any(isinstance(n, (ast.Return, ast.Break, ast.Continue)) for z in st.body[:-1] + rest[:-1] for n in ast.walk(z)):
+                ret = rest[-1]
+                new = ast.copy_location(ast.If(test=st.test, body=st.body[:-1], orelse=rest[:-1]), st)
+                body[i:] = [new, ret]
+                changed = True
+                break
+    return changed
 
 
 def _hoist_common(scope):
@@ -2162,6 +2182,58 @@ def expand_comprehensions(fn):
     ast.fix_missing_locations(fn)
 
 
+def _touches(nodes):
+    """(reads, writes) as sets of names, with 'RNG' for the random streams; None when something unknown may be affected."""
+    reads, writes = set(), set()
+    for n in nodes:
+        reads |= _names(n)
+        w = _writes(n) if isinstance(n, ast.stmt) else _writes(ast.Expr(value=n))
+        if "?" in w:
+            return None
+        writes |= w
+        for c in ast.walk(n):
+            if isinstance(c, ast.Call):
+                ch = _chain(c.func) or ""
+                if ch.startswith(IMPURE_PREFIX):
+                    writes.add("RNG")
+                    reads.add("RNG")
+                elif not is_pure(c) and not (isinstance(c.func, ast.Attribute) and isinstance(c.func.value, ast.Name)):
+                    return None          # a call of something unknown
+    return reads, writes
+
+
+def _independent(comp, body, target):
+    a = _touches([g.iter for g in comp.generators] + [c for g in comp.generators for c in g.ifs] + [comp.elt])
+    b = _touches(body)
+    if a is None or b is None:
+        return False
+    ra, wa = a
+    rb, wb = b
+    tn = _names(target)
+    wa = {y for x in wa for y in _aliased(x)}
+    wb = {y for x in wb for y in _aliased(x)} - tn
+    return not (wa & (rb | wb)) and not (wb & ra)
+
+
+def _edge_pairs(it):
+    """'pairs' when the elements handed to add_edges_from are certainly 2-tuples (a display (u, v), or the elements of
+    X.edges() without arguments), 'triples' when they are displays (u, v, {...}); None when that cannot be seen."""
+    if isinstance(it, (ast.GeneratorExp, ast.ListComp)):
+        e = it.elt
+        if isinstance(e, ast.Tuple) and len(e.elts) == 2:
+            return "pairs"
+        if isinstance(e, ast.Tuple) and len(e.elts) == 3 and isinstance(e.elts[2], ast.Dict) \
+                and all(isinstance(k, ast.Constant) and isinstance(k.value, str) for k in e.elts[2].keys):
+            return "triples"
+        if isinstance(e, ast.Name) and len(it.generators) == 1 and isinstance(it.generators[0].target, ast.Name) \
+                and it.generators[0].target.id == e.id:
+            return _edge_pairs(it.generators[0].iter)
+        return None
+    if isinstance(it, ast.Call) and isinstance(it.func, ast.Attribute) and it.func.attr == "edges" and not it.args and not it.keywords:
+        return "pairs"
+    return None
+
+
 def networkx_bulk_calls(fn):
     """networkx: `H.add_edges_from(it)` is `for e in it: H.add_edge(*e)`, `H.add_nodes_from(it)` is `for n in it: H.add_node(n)`
     (no attribute keywords), and iterating `G.nodes()` is iterating `G`.  A `for` over a generator expression is the nested
@@ -2172,14 +2244,46 @@ def networkx_bulk_calls(fn):
         new = []
         for st in body:
             c = st.value if isinstance(st, ast.Expr) and isinstance(st.value, ast.Call) else None
+            if c is not None and isinstance(c.func, ast.Attribute) and c.func.attr == "add_edges_from" and isinstance(c.func.value, ast.Name) \
+                    and len(c.args) == 1 and not c.keywords and isinstance(c.args[0], ast.GeneratorExp) \
+                    and isinstance(c.args[0].elt, ast.Tuple) and _edge_pairs(c.args[0]) is not None:
+                # the elements are displays: write the call with the components themselves
+                g = c.args[0]
+                el = g.elt.elts
+                kws = []
+                if len(el) == 3:
+                    kws = [ast.keyword(arg=k.value, value=v) for k, v in zip(el[2].keys, el[2].values)]
+                call = ast.Call(func=ast.Attribute(value=c.func.value, attr="add_edge", ctx=ast.Load()), args=[el[0], el[1]], keywords=kws)
+                inner = [ast.Expr(value=call)]
+                for gen in reversed(g.generators):
+                    for cnd in reversed(gen.ifs):
+                        inner = [ast.If(test=cnd, body=inner, orelse=[])]
+                    for t in ast.walk(gen.target):
+                        if isinstance(t, ast.Name):
+                            t.ctx = ast.Store()
+                    inner = [ast.For(target=gen.target, iter=gen.iter, body=inner, orelse=[], type_comment=None)]
+                new.append(ast.copy_location(inner[0], st))
+                changed = True
+                continue
             if c is not None and isinstance(c.func, ast.Attribute) and c.func.attr in ("add_edges_from", "add_nodes_from") \
-                    and isinstance(c.func.value, ast.Name) and len(c.args) == 1 and not c.keywords:
+                    and isinstance(c.func.value, ast.Name) and len(c.args) == 1 and not c.keywords \
+                    and (c.func.attr == "add_nodes_from" or _edge_pairs(c.args[0]) is not None):
                 _cx_counter[0] += 1
                 v = "__b%d" % _cx_counter[0]
-                arg = ast.Starred(value=ast.Name(id=v, ctx=ast.Load()), ctx=ast.Load()) if c.func.attr == "add_edges_from" \
-                    else ast.Name(id=v, ctx=ast.Load())
+                kws = []
+                if c.func.attr == "add_edges_from":
+                    kind = _edge_pairs(c.args[0])
+                    if kind == "pairs":
+                        args_ = [ast.Starred(value=ast.Name(id=v, ctx=ast.Load()), ctx=ast.Load())]
+                    else:
+                        # elements are (u, v, {'key': value}) displays: the dict holds the edge attributes
+                        args_ = [ast.Subscript(value=ast.Name(id=v, ctx=ast.Load()), slice=ast.Constant(0), ctx=ast.Load()),
+                                 ast.Subscript(value=ast.Name(id=v, ctx=ast.Load()), slice=ast.Constant(1), ctx=ast.Load())]
+                        kws = [ast.keyword(arg=None, value=ast.Subscript(value=ast.Name(id=v, ctx=ast.Load()), slice=ast.Constant(2), ctx=ast.Load()))]
+                else:
+                    args_ = [ast.Name(id=v, ctx=ast.Load())]
                 call = ast.Call(func=ast.Attribute(value=c.func.value, attr="add_edge" if c.func.attr == "add_edges_from" else "add_node",
-                                                   ctx=ast.Load()), args=[arg], keywords=[])
+                                                   ctx=ast.Load()), args=args_, keywords=kws)
                 new.append(ast.copy_location(ast.For(target=ast.Name(id=v, ctx=ast.Store()), iter=c.args[0],
                                                      body=[ast.Expr(value=call)], orelse=[], type_comment=None), st))
                 changed = True
@@ -2191,6 +2295,11 @@ def networkx_bulk_calls(fn):
         if isinstance(it, ast.Call) and isinstance(it.func, ast.Attribute) and it.func.attr == "nodes" and not it.args and not it.keywords \
                 and isinstance(it.func.value, ast.Name):
             loop.iter = it.func.value
+            changed = True
+        if isinstance(loop.iter, ast.ListComp) and not loop.orelse and _independent(loop.iter, loop.body, loop.target):
+            # the list is built completely before the first iteration; when building it and the loop body do not touch the
+            # same things (e.g. random draws on one side, additions to a graph on the other) the interleaving is immaterial
+            loop.iter = ast.GeneratorExp(elt=loop.iter.elt, generators=loop.iter.generators)
             changed = True
         if isinstance(loop.iter, ast.GeneratorExp) and not loop.orelse and not any(g.is_async for g in loop.iter.generators):
             g = copy.deepcopy(loop.iter)
